@@ -466,6 +466,42 @@ pub fn c14_configs(thorough: bool) -> Vec<EpCfg> {
             }
         }
     }
+    // both directions around the 127 / 128 Remaining Length boundary: the long topics give PUBLISH frames of
+    // 129 (QoS 0, body 127, one length byte) and 131 bytes (body 128, two length bytes); QoS 1 adds 2, an alias 3
+    for role in [RoleK::Client, RoleK::Server] {
+        for lim in [129u32, 130, 131, 132, 133] {
+            if !thorough && (role == RoleK::Server || !(lim == 130 || lim == 131)) {
+                continue;
+            }
+            for mode in ["manual", "auto-map"] {
+                if !thorough && mode == "auto-map" && lim != 131 {
+                    continue;
+                }
+                let mut c = EpCfg::new(&cfg_name("c14", role, Some(Ver::V5), &format!("rl-boundary limit={lim} {mode}")), role, Some(Ver::V5));
+                c.auto_pub = true;
+                c.auto_map = mode == "auto-map";
+                c.window = 1;
+                c.alph = Alph {
+                    pub_q: vec![0, 1],
+                    topics: 2,
+                    topic_base: 3,
+                    als: if mode == "manual" { vec![Al::No, Al::Reg(1)] } else { vec![Al::No] },
+                    peer_pub_q: vec![0, 1],
+                    peer_ids: vec![1],
+                    peer_acks: vec![AckKind::Puback],
+                    peer_ack_ids: vec![1],
+                    spontaneous_close: true,
+                    ..Alph::default()
+                };
+                // the same limit in both directions, Topic Alias Maximum 1 both ways; persistent session so that
+                // stored copies (full topic) meet the limit on resume
+                c.connects = vec![ConnProf { mps: Some(lim), tam: Some(1), ..ConnProf::basic(false) }];
+                c.connacks = vec![AckProf { mps: Some(lim), tam: Some(1), ..AckProf::basic(true) }];
+                c.groups = vec!["c14"];
+                v.push(c);
+            }
+        }
+    }
     // inbound: own limit around inbound frame sizes
     for role in [RoleK::Client, RoleK::Server] {
         for own in [3u32, 4, 6, 7, 8, 9] {
